@@ -18,7 +18,7 @@ ASSUMPTIONS = [
     "numpy view-vs-copy facts are encoded in Model/Heap.v and validated here through numpy.shares_memory",
 ]
 
-INPLACE = ("set", "set_values", "rawfill")
+INPLACE = ("set", "set_values", "set_values_arr", "rawfill")
 INDEPENDENT = ("copy", "full_like", "bin", "un", "cast", "get", "cumsum")
 
 
